@@ -209,8 +209,84 @@ def _run(marks, no_cover, only_cover, strict_only=True) -> bool:
         return _evaluate(marks, no_cover, only_cover, strict_only)
 
 
+def _evaluate_hook(no_cover: list[str], ignore: list[str]) -> bool:
+    """The same oracle through the real `install_import_hook`: `no_cover` comes from the to-cover
+    configuration, `ignore` from `configuration.ignore_methods` (qualified with the module name),
+    which the hook has to merge into the no-cover list."""
+    import importlib
+    import sys
+
+    from pynguin.instrumentation.machinery import install_import_hook
+
+    tmp = tempfile.mkdtemp(prefix="C08_hook_")
+    modname = "c08_hooked_" + os.path.basename(tmp).replace("-", "_").lower()
+    path = os.path.join(tmp, modname + ".py")
+    with open(path, "w") as f:
+        f.write(SRC)
+    old_ignore = config.configuration.ignore_methods
+    sys.path.insert(0, tmp)
+    sp = SubjectProperties()
+    hook = None
+    try:
+        config.configuration.ignore_methods = [f"{modname}.{n}" for n in ignore] + ["some.other.module.fn"]
+        tc = config.ToCoverConfiguration(no_cover=list(no_cover))
+        hook = install_import_hook(modname, sp, coverage_metrics={config.CoverageMetric.BRANCH, config.CoverageMetric.LINE},
+                                   to_cover_config=tc)
+        with sp.instrumentation_tracer:
+            importlib.import_module(modname)
+    finally:
+        if hook is not None:
+            hook.uninstall()
+        config.configuration.ignore_methods = old_ignore
+        sys.path.remove(tmp)
+        sys.modules.pop(modname, None)
+        for fn in os.listdir(tmp):
+            full = os.path.join(tmp, fn)
+            if os.path.isdir(full):
+                import shutil
+
+                shutil.rmtree(full, ignore_errors=True)
+            else:
+                os.unlink(full)
+        os.rmdir(tmp)
+    excluded, _unc = excluded_lines(set(), list(no_cover) + list(ignore), [])
+    registered = {m.line_number for m in sp.existing_lines.values()}
+    if registered & excluded:
+        return False
+    if any(m.line_no in excluded for m in sp.existing_predicates.values()):
+        return False
+    for meta in sp.existing_code_objects.values():
+        co = meta.code_object
+        if co.co_name != "<module>" and co.co_firstlineno in excluded:
+            return False
+    executable: dict[int, set[str]] = {}
+    _code_lines(compile(SRC, path, "exec"), executable)
+    return all(ln in excluded or ln in registered for ln in executable)
+
+
 NC = len(CANDIDATES)
 NS = len(SCOPE_NAMES)
+
+
+def h_import_hook(s: int, t: int, use_no_cover: bool) -> bool:
+    """
+    pre: 0 <= s < 16 and 0 <= t < 16
+    post: _
+    """
+    s, t, use_no_cover = realize((s, t, use_no_cover))
+    if s >= NS or t >= NS:
+        return reach(True)
+    no_cover = [SCOPE_NAMES[s]] if use_no_cover else []
+    try:
+        from crosshair.tracers import NoTracing
+    except ImportError:
+        return reach(_evaluate_hook(no_cover, [SCOPE_NAMES[t]]))
+    from engines.prelude import in_crosshair
+
+    if not in_crosshair():
+        return reach(_evaluate_hook(no_cover, [SCOPE_NAMES[t]]))
+    with NoTracing():
+        return reach(_evaluate_hook(no_cover, [SCOPE_NAMES[t]]))
 
 
 def h_one_marker(m: int, kind: int) -> bool:
@@ -280,11 +356,12 @@ META = {
              "excluded code is a registered line. The oracle is an independent AST-containment computation.",
     "note": "Marker placement and scope choice are realised before rendering/parsing (C boundary): obligations are "
             "solver-enumerated concrete configurations, exhaustive within the bound. One corpus module; `with` headers, "
-            "decorators and async constructs are outside; install_import_hook's ignore_methods mapping is exercised only "
-            "through the equivalent no_cover list.",
+            "decorators and async constructs are outside; install_import_hook's ignore_methods -> no_cover mapping is exercised "
+            "through the real hook for every (no_cover scope, ignored scope) pair.",
     "functions": ["ModuleAstInfo.from_path/_find_lines_in_source_code/_find_lines_in_ast/_find_excluded_block_lines/get_scope",
                   "AstInfo._in_cover/should_be_covered/should_cover_line/should_cover_conditional_statement",
-                  "InstrumentationTransformer.instrument_code/_instrument_code_recursive",
+                  "InstrumentationTransformer.instrument_code/_instrument_code_recursive", "machinery.install_import_hook/"
+                  "InstrumentationFinder/InstrumentationLoader",
                   "Branch/LineCoverageInstrumentation.visit_node (exclusion guards)"],
     "bounds": {"markers": "<= 2 per module, 3 spellings", "scope lists": "<= 1 name each", "corpus": "corpus/C08_excl.py"},
     "outside": ["other modules", "more than two markers", "with/async/decorator headers", "CHECKED metric"],
@@ -302,7 +379,8 @@ def obligations(tier: str):
     obs = [Chx("one_marker", h_one_marker, timeout=T, split={"kind": [0, 1, 2]}, path_timeout=60),
            Chx("no_cover", h_no_cover, timeout=T, split={"s": list(range(0, 10))}, path_timeout=60),
            Chx("only_cover", h_only_cover, timeout=T, split={"s": list(range(0, 10))}, path_timeout=60),
-           Chx("only_and_no_cover", h_only_and_no_cover, timeout=T, split={"s": list(range(0, 10))}, path_timeout=60)]
+           Chx("only_and_no_cover", h_only_and_no_cover, timeout=T, split={"s": list(range(0, 10))}, path_timeout=60),
+           Chx("import_hook_ignore_methods", h_import_hook, timeout=T, split={"s": list(range(0, 10))}, path_timeout=60)]
     if q:
         obs.append(Chx("two_markers", h_two_markers, timeout=T, fix={"kind": 0}, split={"m1": list(range(0, 56, 4))}, path_timeout=60))
     else:
